@@ -434,6 +434,23 @@ impl Oracle for UnsolOracle {
                                         ));
                                     }
                                     if !retry {
+                                        // "retried unchanged up to the configured number of times": giving up earlier, with
+                                        // nothing but the time-out as the reason, is not what was configured
+                                        let retries_left = self
+                                            .max_retries
+                                            .map(|m| (series.tx_count as usize) < 1 + m)
+                                            .unwrap_or(true);
+                                        // (a READ deferred during the wait is the other reason: it is answered when this wait ends)
+                                        if !series.is_null && retries_left && self.deferred.is_none() {
+                                            return Some(Violation::new(
+                                                "C14/R4 series-abandoned-before-configured-retries",
+                                                "",
+                                                format!(
+                                                    "step {}: the unsolicited response seq {} was given up after {} transmission(s) although {:?} retries are configured",
+                                                    step.op_index, q, series.tx_count, self.max_retries
+                                                ),
+                                            ));
+                                        }
                                         if !series.is_null {
                                             self.nontrivial = true;
                                             self.bump("probe.series_timed_out");
